@@ -16,8 +16,8 @@ from ledgerblue.commException import CommException
 
 PIN_DIR = "/nonexistent-verif-dir/"
 PIN_FILE = PIN_DIR + "pin.txt"   # never a real path: the file lives in memfs only
-GOOD_PIN = b"abcd1234"
-DEFAULT_PIN = b"1234abcd"
+GOOD_PIN = b"a1b2a3c1"       # characters that occur more than once: their positions matter
+DEFAULT_PIN = b"12d4a2cd"
 
 
 def supports(ver):
@@ -315,6 +315,10 @@ class C09(Check):
             viol("pin-sent-to-unsafe-device", {"config": {k: v[k] for k in cfg.order},
                                                "apdus": [a.hex() for a in pin_traffic[:4]]},
                  "no PIN / unlock traffic")
+        if unlock_pins:
+            held = GOOD_PIN if case["pin"] in ("file", "forced", "file-noenv") else DEFAULT_PIN
+            if unlock_pins[0] != held:
+                viol("unlock-pin-differs", {"device_received": unlock_pins[0]}, {"pin_the_manager_holds": held})
         if dev.unlock_cmds > 1 or len(unlock_pins) > 1:
             viol("unlock-sent-twice", {"unlock_cmds": dev.unlock_cmds}, "<= 1")
         if len(new_pins) > 1:
